@@ -297,6 +297,11 @@ def generate(seed, tier):
     if r.random() < 0.5:
         o['faults'] = ['dup'] + [k for k in ('drop', 'delay', 'reorder') if r.random() < 0.4]
     sc = workload.pair_scenario(seed, PROP, o)
+    if r.random() < 0.25:
+        # one endpoint always demands a cookie: IKE_SA_INIT goes through the COOKIE retry (Message ID 0 again), whose answers are duplicated,
+        # delayed and re-ordered like everything else
+        sc['controller_attrs'] = {r.choice('AB'): {'cookie_threshold': 0}}
+        sc['meta']['cookie_mode'] = True
     T = sc['until']
     for _ in range(r.randint(0, 6)):
         sc['ops'].append({'t': round(r.uniform(1.5, T), 3), 'op': 'call', 'name': 'replay', 'pick': r.randrange(10 ** 6),
@@ -314,6 +319,26 @@ def run(scenario):
         ctx['oracle'] = WindowOracle(w, wire)
         from sim.wiretap import Wiretap
         ctx['tap'] = Wiretap(w, check_reencode=False)
+
+        class SendWindow:
+            """'A response is accepted only for the single outstanding request': while an IKE_SA waits for a response, the Message ID it will
+            accept is the one of the request it has on the wire (a response that was looked at and put aside must leave the window where it was)."""
+            def after_step(self, node, cause):
+                if w.poisoned or node.state != 'running' or node.exited:
+                    return
+                for sa in node.ike_sas():
+                    if not sa.state.name.endswith('_REQ_SENT'):
+                        continue
+                    last = next((x for x in reversed(wire.by_sender.get(node.name, [])[-60:]) if x['h'] is not None and not x['h']['R']
+                                 and (x['h']['spi_i'] if x['h']['I'] else x['h']['spi_r']) == sa.my_spi), None)
+                    if last is None:
+                        continue
+                    ctx['oracle']._r('send_window_judged')
+                    if last['h']['id'] != sa.my_msg_id:
+                        return ctx['oracle'].viol('send_window_out_of_step', {'state': sa.state.name},
+                                                  f'{node.name}: IKE_SA {sa.my_spi.hex()} is in {sa.state.name} with request id {last["h"]["id"]} on the wire, '
+                                                  f'but the only response it would accept now is id {sa.my_msg_id}')
+        w.monitors.append(SendWindow())
 
         def at_end(w, ctx):
             # roles of IKE_SAs created by rekey, judged from the wire and not from what the daemons believe: the endpoint that sent the rekey
